@@ -9,26 +9,16 @@ TRUSTED_COMMON = [
     "Go 1.23.5 toolchain and standard library behave as documented",
 ]
 
-PROPS = {
-    "C14": {
-        "targets": ["Props/C14.vo", "Corr/CorrC14.vo"],
-        "cone": ["Bridge/BrC14.v", "Base/NumProofs.v"],
-        "harness": "c14",
-        "trusted": ["model of Go integer wrap-around / float32 rounding in coq/Base/Num.v (validated by the correspondence on every run)"],
-        "assumptions": ["int/uint are 64-bit (amd64)", "float->integer conversions out of range are implementation-defined in Go and excluded",
-                        "math.Pow is not modelled (the ** operator is judged against Go's math.Pow on the implementation only)"],
-        "explanation": "Theorems C14_table/C14_rule/C14_kind_predicted are re-checked against the table regenerated from vm/helpers.go and checker/types.go; the model instantiated with that table is executed on the inputs the implementation ran",
-    },
-}
+import glob, importlib.util, os
 
-MANIFEST_TEXT = {
-    "C14": {
-        "text": "Coq theorems (kernel-checked on every run) over the conversion table REGENERATED from vm/helpers.go, vm/runtime.go and checker/types.go: every one of the 1 402 generated cases converts exactly the lower-ranked operand to the higher-ranked kind (reference rank written from the property), for all operand values the helper equals Go's operator after that conversion, integer division truncates, /0 and %0 are errors, and the result kind is the checker's `combined`. The 12 ordered kind pairs of known finding C14-rank are carved out by a decidable predicate proved tight. The model instantiated with the regenerated table is executed on the inputs the implementation ran (vm_compute), and every grid point of 144 kind pairs x 12 operators is judged on the implementation against Go's own conversion+operator.",
-        "design_ref": "DESIGN.md §4 C14",
-        "note": "Trusted: Coq kernel + vm_compute + primitive floats; translator reading helpers.go; numeric model Base/Num.v (validated by correspondence each run); Go's own arithmetic as oracle. math.Pow not modelled. Float->int out-of-range conversions excluded (Go leaves them implementation-defined).",
-        "technique": "Coq proof: finite table sweep by vm_compute lifted with forallb_forall over a translator-regenerated table + generic value-level lemma; executed model/implementation correspondence",
-    },
-}
+PROPS, MANIFEST_TEXT = {}, {}
+for _f in sorted(glob.glob(os.path.join(os.path.dirname(os.path.abspath(__file__)), "propdefs", "C*.py"))):
+    _pid = os.path.basename(_f)[:-3]
+    _spec = importlib.util.spec_from_file_location("propdef_" + _pid, _f)
+    _m = importlib.util.module_from_spec(_spec)
+    _spec.loader.exec_module(_m)
+    PROPS[_pid] = _m.PROP
+    MANIFEST_TEXT[_pid] = _m.MANIFEST
 
-NOT_APPLICABLE = {pid: "check not built yet in this session (planned, see DESIGN.md §7)" for pid in
+NOT_APPLICABLE = {pid: "check not built yet in this session (planned, see DESIGN.md section 7)" for pid in
                   ["C%02d" % i for i in range(1, 19)]}
